@@ -501,20 +501,40 @@ impl C04 {
     }
 }
 
-fn walk_spans(spans: &[Span], depth: usize, out: &mut usize) {
+/// Walks the span tree the way a frontend does.  List structure: every consumer that indents
+/// (the CLI's `to_ansi_inner` computes `indent * 2 - 2`) relies on a `ListSep` never appearing
+/// before a `ListBegin` of the same object or of an enclosing one; `bad` receives such separators.
+fn walk_spans(spans: &[Span], depth: usize, mut indent: usize, out: &mut usize, bad: &mut usize) {
+    use rink_core::output::fmt::FmtToken;
     if depth > 64 {
         return;
     }
     for s in spans {
         match s {
-            Span::Content { text, .. } => *out += text.len(),
-            Span::Child(c) => walk_spans(&c.to_spans(), depth + 1, out),
+            Span::Content { text, token } => {
+                match token {
+                    FmtToken::ListBegin => indent += 1,
+                    FmtToken::ListSep if indent == 0 => *bad += 1,
+                    _ => {}
+                }
+                *out += text.len()
+            }
+            Span::Child(c) => walk_spans(&c.to_spans(), depth + 1, indent, out, bad),
         }
     }
 }
 
 fn render_all(r: &Result<QueryReply, QueryError>) -> usize {
+    let (n, bad) = render_all2(r);
+    if bad > 0 {
+        panic!("span tree is malformed: {} list separator(s) outside of any list (a frontend that indents list items underflows on this reply)", bad);
+    }
+    n
+}
+
+fn render_all2(r: &Result<QueryReply, QueryError>) -> (usize, usize) {
     let mut n = 0;
+    let mut bad = 0;
     match r {
         Ok(v) => {
             n += v.to_string().len();
@@ -525,8 +545,8 @@ fn render_all(r: &Result<QueryReply, QueryError>) -> usize {
             n += serde_json::to_value(e).map(|x| x.to_string().len()).unwrap_or(0);
         }
     }
-    walk_spans(&r.to_spans(), 0, &mut n);
-    n
+    walk_spans(&r.to_spans(), 0, 0, &mut n, &mut bad);
+    (n, bad)
 }
 
 fn ans_for(idx: u64) -> Option<Number> {
@@ -602,7 +622,7 @@ impl Space for C04 {
         Meta {
             id: "C04",
             level: "exploration",
-            rule: "four exhaustive families evaluated through rink_core::eval on a long-lived context (ans preset per case from a 6-value pool incl. a zero time and NaN), every reply rendered as Display, recursive span tree and serde_json: (1) all token sequences of length <= 3 (thorough 4) over a 68-token alphabet with one token per lexer/parser branch; (2) grammar-directed trees with unit/substance/date/zero leaves; (3) every single-character deviation (delete, duplicate, swap, insert/replace with each special character) at every position of every query string of core/tests/query.rs and the manual; (4) depth/length ladders up to 500 characters for 38 repeating units, all 1- and 2- (thorough 3-) character strings over a 160-character alphabet; (4a) unit powers composed from small exponents, `(u^a)^b` in 7 contexts for 16x16 exponent pairs whose products reach +-2^31, +-2^32, +-2^63 (cheap by construction: the exact result is 1 x unit^k, so the 5 s limit applies); (4b) date literals: 14 boundary years (0, 1, 9999, 10000, chrono's limits +-262144, +-2^31, 2^63-1) x 8 pattern forms x 5 eras x 3 continuations; (5) the same inputs through the real `rink -f -` binary in batches with a sentinel after each input. Oracle: Ok or Err within 5 s, no panic/abort/stack overflow (8 MiB)/2 GiB; canary `1 + 1` after every failure and every 1000 cases. Inputs classified expensive by a static rule (exponent/shift/power towers, >= 4-digit exponent literals) may time out but not panic. Non-trivial = the input produced a reply or an error (not a skipped index); distinct by input text".into(),
+            rule: "four exhaustive families evaluated through rink_core::eval on a long-lived context (ans preset per case from a 6-value pool incl. a zero time and NaN), every reply rendered as Display, recursive span tree and serde_json: (1) all token sequences of length <= 3 (thorough 4) over a 68-token alphabet with one token per lexer/parser branch; (2) grammar-directed trees with unit/substance/date/zero leaves; (3) every single-character deviation (delete, duplicate, swap, insert/replace with each special character) at every position of every query string of core/tests/query.rs and the manual; (4) depth/length ladders up to 500 characters for 38 repeating units, all 1- and 2- (thorough 3-) character strings over a 160-character alphabet; (4a) unit powers composed from small exponents, `(u^a)^b` in 7 contexts for 16x16 exponent pairs whose products reach +-2^31, +-2^32, +-2^63 (cheap by construction: the exact result is 1 x unit^k, so the 5 s limit applies); (4b) date literals: 14 boundary years (0, 1, 9999, 10000, chrono's limits +-262144, +-2^31, 2^63-1) x 8 pattern forms x 5 eras x 3 continuations; (5) the same inputs through the real `rink -f -` binary in batches with a sentinel after each input. Oracle: Ok or Err within 5 s, a well-formed span tree (no list separator outside a list: the CLI's indentation arithmetic underflows otherwise), no panic/abort/stack overflow (8 MiB)/2 GiB; canary `1 + 1` after every failure and every 1000 cases. Inputs classified expensive by a static rule (exponent/shift/power towers, >= 4-digit exponent literals) may time out but not panic. Non-trivial = the input produced a reply or an error (not a skipped index); distinct by input text".into(),
             assumptions: vec![
                 "8 MiB stack and 2 GiB address space stand for the resource envelope of a chat bot / CLI".into(),
                 "`ans` before each case is a deterministic function of the case index so that every failure replays in isolation".into(),
